@@ -1,9 +1,10 @@
 """C40 — the copy tool's WeightedSemaphore is safe and releases on cancellation
 (hail/python/hailtop/aiotools/weighted_semaphore.py).
 
-The unchanged code LEAKS capacity when a queued waiter is cancelled (before or after release() granted it): see
-fixes/C40.diff (handle the interruption in acquire: drop the queue entry, or hand the grant back) and findings/C40.json.
-Model, theorems and this check target the FIXED code; on the unfixed tree the check reports the leak with a replay.
+The original code LEAKED capacity when a queued waiter was cancelled (before or after release() granted it): see
+fixes/C40.diff (handle the interruption in acquire: drop the queue entry, or hand the grant back; committed to /repo as
+"fix: WeightedSemaphore leaked capacity when a waiter was cancelled") and findings/C40.json.
+Model, theorems and this check target the FIXED code; on a tree without the fix the check reports the leak with a replay.
 
 Model coq/theories/SemWeighted/Model.v at the granularity of single asyncio callbacks (Spawn / Exit / Cancel / Tick);
 theorems for ALL action lists in Props_C40.v.  Tie X: the real class, entered through acquire_manager as copier.py does,
@@ -37,8 +38,8 @@ META = dict(
                'wake-up); idle with nobody in a body implies everybody finished. The theorems are about the code WITH fixes/C40.diff; the '
                'model is tied to the source by running the real class on a single-callback asyncio driver and comparing value, events list, '
                'every job position and the ready queue after every action (exhaustive small scope + seeded random).',
-    level_note='The unchanged repository code violates the property (cancelled waiter leaks capacity, reproduced; findings/C40.json); the check '
-               'reports that as VIOLATION with a replay until fixes/C40.diff is committed. The theorems are about the hand model; the tie to the '
+    level_note='Before the fix commit (fixes/C40.diff) the repository code violated the property (cancelled waiter leaks capacity, reproduced; '
+               'findings/C40.json); on a tree without the fix the check reports VIOLATION with a replay. The theorems are about the hand model; the tie to the '
                'source is the (sampled) correspondence run. Trusted: Coq kernel, CPython asyncio, sortedcontainers, harness/aio/*.py, harness/impl/c40_weighted.py.',
     partial=False,
 )
